@@ -365,6 +365,30 @@ func (w *World) checkCorrHistory(c *Call, fin map[*Call]Observation) {
 					fmt.Sscan(m[1], &nerr)
 				}
 				justified = nerr == len(c.Targets)
+				// ... each of them exactly once
+				ids := map[uint32]bool{}
+				for _, e := range parseNodeErrors(o.Err.Error()) {
+					ids[e.ID] = true
+				}
+				if len(ids) != len(c.Targets) {
+					justified = false
+				}
+				// and in a fault-free run every reply that the handlers streamed before they failed
+				// has been shown to the quorum function by then (replies and the final error of a
+				// node travel over one stream, in order)
+				if justified && w.Cfg.FaultFree && w.noContextEndedEarly() {
+					streamed := 0
+					for _, si := range c.Targets {
+						for _, h := range w.handlersFor(c, si) {
+							streamed += len(h.Stamps) - h.SendFailed
+						}
+					}
+					ok := len(c.QFInv) == streamed
+					w.rule("C11.streamed-replies-reach-the-quorum-function", ok)
+					if !ok {
+						w.violate("C11", "streamed-replies-lost", "", "%s completed because every node had failed; the handlers had streamed %d replies before, but the quorum function was shown only %d", id, streamed, len(c.QFInv))
+					}
+				}
 			}
 			w.rule("C11.completion-justified", justified)
 			if !justified {
@@ -395,4 +419,16 @@ func (w *World) checkCorrHistory(c *Call, fin map[*Call]Observation) {
 			w.violate("C11", "never-completed", key, "%s has not completed although every node has answered: %s", id, w.explainPending(c))
 		}
 	}
+}
+
+// noContextEndedEarly reports whether no context of the run ended before its call was complete (a
+// cancellation while requests or replies are on their way makes the library reset the shared
+// stream, which legitimately loses what is in flight).
+func (w *World) noContextEndedEarly() bool {
+	for _, c := range w.calls[1:] {
+		if c.InvokeSeq != 0 && c.CtxEndSeq != 0 && (c.DoneSeq == 0 || c.CtxEndSeq < c.DoneSeq) {
+			return false
+		}
+	}
+	return true
 }
